@@ -174,6 +174,7 @@ func runC17(r *Report) {
 	c17QueuedPeers(r)
 	c17Replies(r)
 	c17Table(r, "R4")
+	c17BusyTransient(r, "R6")
 }
 
 // checkChanOp classifies one channel operation under rule R1.
@@ -1274,4 +1275,128 @@ func c17Table(r *Report, rule string) {
 		})
 	}
 	r.Sentinel(rule+".table-insert", nIns, 1)
+}
+
+// c17BusyTransient: the busy state is a promise that the function which set it will take it away again: Del (and
+// with it Torrent.Kill and eviction) waits, polling, until the piece is no longer busy. Every path from a transition
+// into stateBusy to a return of the same function passes a transition out of it (a path that panics needs none).
+func c17BusyTransient(r *Report, rule string) {
+	p := r.P
+	setState := p.Func("tor/piece", "Piece.setState")
+	stBusy, ok := pieceConst(p, "stateBusy")
+	if !r.Anchor(rule, "piece.Piece.setState", setState != nil) || !r.Anchor(rule, "piece.stateBusy", ok) {
+		return
+	}
+	isRet := func(in ssa.Instruction) bool { _, ok := in.(*ssa.Return); return ok }
+	// leaves: the instruction takes the busy mark away — setState(stateBusy, …), or a call of a function of the package
+	// that does so on every path
+	memo := map[*ssa.Function]bool{}
+	var leaves func(in ssa.Instruction) bool
+	var mustLeave func(h *ssa.Function, d int) bool
+	mustLeave = func(h *ssa.Function, d int) bool {
+		if v, ok := memo[h]; ok {
+			return v
+		}
+		if d > 3 || h.Blocks == nil || relPkg(h) != "tor/piece" {
+			return false
+		}
+		memo[h] = false
+		_, reached := pathsMissingAt(h.Blocks[0], 0, -1, isRet, leaves, nil, nil)
+		memo[h] = reached == 0
+		return memo[h]
+	}
+	leaves = func(in ssa.Instruction) bool {
+		c2, ok := in.(*ssa.Call)
+		if !ok {
+			return false
+		}
+		h := c2.Call.StaticCallee()
+		if h == nil || c2.Call.IsInvoke() {
+			return false
+		}
+		if h == setState {
+			if len(c2.Call.Args) != 3 {
+				return false
+			}
+			from, okf := constInt(c2.Call.Args[1])
+			return okf && from == stBusy
+		}
+		return h != c2.Parent() && mustLeave(h, 0)
+	}
+	// returnsBusy: some path from just after `in` reaches a return without the mark being taken away
+	returnsBusy := func(in ssa.Instruction) (bool, token.Pos) {
+		var at token.Pos
+		saved := pathTargetHook
+		pathTargetHook = func(t ssa.Instruction, _ func(*ssa.Phi) (int64, bool)) bool {
+			if at == token.NoPos {
+				at = t.Pos()
+				if at == token.NoPos {
+					at = lastPosIn(t.Block())
+				}
+			}
+			return true
+		}
+		_, reached := pathsMissing(in, -1, isRet, leaves, nil)
+		pathTargetHook = saved
+		return reached > 0, at
+	}
+	// check: the transition at `in` is undone before its function returns, or — when that function is a private helper
+	// (markBusy) — before each of the helper's callers returns
+	var check func(in ssa.Instruction, d int) (bool, token.Pos)
+	check = func(in ssa.Instruction, d int) (bool, token.Pos) {
+		bad, at := returnsBusy(in)
+		if !bad {
+			return true, token.NoPos
+		}
+		f := in.Parent()
+		obj, isFn := f.Object().(*types.Func)
+		if d > 2 || f.Parent() != nil || !isFn || obj.Exported() {
+			return false, at
+		}
+		calls, esc := p.callSitesOf(f)
+		if len(esc) > 0 || len(calls) == 0 {
+			return false, at
+		}
+		for _, cs := range calls {
+			ci, okc := cs.(*ssa.Call)
+			if !okc {
+				return false, at
+			}
+			if ok2, at2 := check(ci, d+1); !ok2 {
+				return false, at2
+			}
+		}
+		return true, token.NoPos
+	}
+	calls, _ := p.callSitesOf(setState)
+	n := 0
+	for _, cs := range calls {
+		c, isCall := cs.(*ssa.Call)
+		if !isCall || len(c.Call.Args) != 3 {
+			continue
+		}
+		to, okt := constInt(c.Call.Args[2])
+		if !okt || to != stBusy {
+			continue
+		}
+		n++
+		f := c.Parent()
+		r.Fn(f)
+		good, at := check(c, 0)
+		msg := ""
+		if !good {
+			msg = fmt.Sprintf("a function returns (near %s) with the piece still marked busy: nothing ever takes the mark away, so Del — called by Torrent.Kill and by eviction — polls the piece for ever, the torrent's goroutine never finishes and its memory is never released", p.Fset.Position(at))
+		}
+		r.Check(good, rule, fname(f)+"/busy-is-taken-away-on-every-path", c.Pos(), "every return after the busy transition passes a transition out of busy", msg)
+	}
+	r.Sentinel(rule+".busy", n, 1)
+}
+
+func lastPosIn(b *ssa.BasicBlock) token.Pos {
+	for i := len(b.Instrs) - 1; i >= 0; i-- {
+		if b.Instrs[i].Pos() != token.NoPos {
+			return b.Instrs[i].Pos()
+		}
+	}
+	return token.NoPos
 }
